@@ -75,6 +75,17 @@ Theorem C07_property_under_hyps : forall maxr cmid0 smid0 acts,
 Proof. exact ex_system_safe. Qed.
 Print Assumptions C07_property_under_hyps.
 
+(* ... and so is "message ids do not wrap within the run" (finding C07-F5): after one
+   piggybacked exchange and 65535 exchanges answered separately, the request that re-uses the
+   first mid has its piggybacked response discarded as a duplicate and is gone from the send
+   queue: neither handler nor NACK.  Client model with an honest echoing peer; replayed on the
+   real client on every run (exw 65535 100). *)
+Theorem C07_concludes_refuted_mid_wrap :
+  ex_wrap_summary (Z.to_nat 65535) =
+  ((ExSend 0, [ExTx (ExReq 101 131072 0)]), (ExRx (ExAckR 101 131072) true, []), None).
+Proof. exact ex_wrap_refuted. Qed.
+Print Assumptions C07_concludes_refuted_mid_wrap.
+
 (* "forall schedule, accepts (run M schedule) = true": the acceptor that judges the real
    library's traces accepts every behaviour of the guarded model (it is not vacuous), and the
    same judge without clause 2 accepts every behaviour of every configuration *)
